@@ -19,6 +19,7 @@ type SpecVal struct {
 	IsNil bool
 	Pkg   *types.Package // identifier names a package
 	Tuple *types.Tuple   // result types of a Go call with several results
+	So    string         // SMT sort when known and there is no Go type (prelude functions)
 }
 
 type SpecEnv struct {
@@ -69,7 +70,7 @@ func (env *SpecEnv) sortOfVal(v SpecVal) string {
 	if v.Go != nil {
 		return env.x.smt.sortOf(v.Go)
 	}
-	return ""
+	return v.So
 }
 
 func sv(t Term) SpecVal { return SpecVal{V: tv(t)} }
@@ -102,7 +103,7 @@ func (env *SpecEnv) ev(e *SExpr) (SpecVal, error) {
 					return SpecVal{V: tv("(bget " + at + " " + it + ")"), Go: types.Typ[types.Int]}, nil
 				}
 				svn, svs, _ := x.sliceHeap(u.Elem())
-				return SpecVal{V: tv("(select (select " + x.getSV(svn, svs) + " (sref " + at + ")) (+ (soff " + at + ") " + it + "))"), Go: u.Elem()}, nil
+				return SpecVal{V: tv("(select (select " + x.getSV(svn, svs) + " (sref " + at + ")) (ix (soff " + at + ") " + it + "))"), Go: u.Elem()}, nil
 			case *types.Chan:
 				atn, ats := x.chanAt(u.Elem())
 				return SpecVal{V: tv("(select (select " + x.getSV(atn, ats) + " " + at + ") " + it + ")"), Go: u.Elem()}, nil
@@ -235,7 +236,16 @@ func (env *SpecEnv) ident(name string) (SpecVal, error) {
 		}
 	}
 	// an SMT symbol from the prelude
-	return sv(name), nil
+	if so := x.smt.declaredSort(name); so != "" {
+		r := sv(name)
+		r.So = so
+		return r, nil
+	}
+	switch name {
+	case "ANil", "snil", "RNE":
+		return sv(name), nil
+	}
+	return SpecVal{}, fmt.Errorf("unknown identifier %q (not a parameter, local variable, constant or spec symbol)", name)
 }
 
 // resolveType resolves "*pkg.Type", "pkg.Type" or "*Type" against the package of the
@@ -627,7 +637,7 @@ func (env *SpecEnv) call(e *SExpr) (SpecVal, error) {
 			return SpecVal{}, fmt.Errorf("anyat(slice, index)")
 		}
 		s := env.term(args[0])
-		return SpecVal{V: tv("(select (select " + x.getSV("SH.Any", "(Array Int (Array Int Any))") + " (sref " + s + ")) (+ (soff " + s + ") " + env.term(args[1]) + "))")}, nil
+		return SpecVal{V: tv("(select (select " + x.getSV("SH.Any", "(Array Int (Array Int Any))") + " (sref " + s + ")) (ix (soff " + s + ") " + env.term(args[1]) + "))")}, nil
 	case "strlist":
 		a, _, err := one()
 		if err != nil {
@@ -641,6 +651,9 @@ func (env *SpecEnv) call(e *SExpr) (SpecVal, error) {
 			return SpecVal{}, fmt.Errorf("strlist: length not statically known")
 		}
 		return sv(l), nil
+	}
+	if r, ok, err := env.methodTableBuiltin(e.Name, args); ok {
+		return r, err
 	}
 	// code lemmas: a call of a real function of the package (executed from its SSA,
 	// or replaced by its contract when it has one)
@@ -671,7 +684,9 @@ func (env *SpecEnv) call(e *SExpr) (SpecVal, error) {
 	for _, a := range args {
 		ts = append(ts, env.term(a))
 	}
-	return sv(app(e.Name, ts...)), nil
+	r := sv(app(e.Name, ts...))
+	r.So = x.smt.declaredSort(e.Name)
+	return r, nil
 }
 
 // specEnvAt builds the environment for the function's own contract at block b.
@@ -715,7 +730,11 @@ func (x *Exec) specEnvAt(b *ssa.BasicBlock, rp *retPoint) *SpecEnv {
 				}
 				val, ok := x.vals[i.X]
 				if !ok {
-					continue
+					if c, isConst := i.X.(*ssa.Const); isConst {
+						val = x.constVal(c)
+					} else {
+						continue
+					}
 				}
 				if b != nil && !(blk == b || blk.Dominates(b)) {
 					continue
